@@ -126,7 +126,7 @@ def run(ctx):
     ctx.evaluations = calls
     fails = validate(traces, ctx, "Trace_Cart")
     report(traces, fails, ctx)
-    ctx.extra["binding_selftest"] = selftest(cv, an, gc)
+    ctx.selftest(selftest, cv, an, gc)
     for t in traces:
         e = t["ev"][0]
         ctx.nontrivial((e["k"], e["ell"], json.dumps(e.get("slat", e.get("p"))), json.dumps(e.get("slon", 0)), e.get("hf", 0), e.get("lon", 0) if e["k"] == "Fwd" else 0))
